@@ -44,7 +44,11 @@ func (l *DList[T]) Unshift(value T) {
 	head := l.DoubleNode
 
 	newNode.next = &head
-	l.prev = newNode
+	// The old first node now lives in head, right after the new first node stored in the list itself.
+	head.prev = &l.DoubleNode
+	if head.next != nil {
+		head.next.prev = &head
+	}
 
 	// Move the pointer to the new node.
 	l.DoubleNode = *newNode
